@@ -3,6 +3,7 @@
 in-memory streams on real pools (harness/ctrlrun.py)."""
 from __future__ import annotations
 
+import asyncio
 import collections
 import json
 import os
@@ -256,11 +257,21 @@ def job_c17(clsname, seed, count, replay_calls=None):
             chunks = await s.send(text, rounds=30)
             logA = sorted(ctrlrun.LOG)
             ctrlrun.LOG.clear()
-            want = await ctrlrun.apply_pycall(B, surf, py)
+            fut = asyncio.ensure_future(ctrlrun.apply_pycall(B, surf, py))
             await ctrlrun.settle(30)
             logB = sorted(ctrlrun.LOG)
             n_checks += 1
             got = b"".join(chunks).decode()
+            if not fut.done():
+                # the method itself waits (e.g. gather-and-close while a spawner waits for room on a
+                # pool of size 0): the command must be waiting too - no reply yet - and the session
+                # is blocked behind it, so the scenario ends here
+                fut.cancel()
+                if chunks:
+                    fails.append({"what": "the command replied although the direct call is still waiting",
+                                  "call": call, "line": text, "reply": got, "index": n_checks - 1})
+                break
+            want = fut.result()
             oa, ob = ctrlrun.pool_obs(A, groups), ctrlrun.pool_obs(B, groups)
             if len(samples) < 4:
                 samples.append({"line": text, "predicted_call": py, "reply": got})
@@ -514,6 +525,7 @@ def main(pid, tier, seed, replay):
         "checker_cmd": "coq_makefile -f _CoqProject -o Makefile && make (coqc 8.16.1, full .vo build)"
                        + ("; coqchk -o" if tier == "thorough" else "") + "; Print Assumptions <theorem>",
         "trusted_base": TRUSTED, "theorems": pinfo["theorems"], "proof_problems": problems,
+        "coqchk": pinfo.get("coqchk", "not run in the quick tier"),
         "evaluations": len(recs), "distinct_nontrivial": distinct,
         "rule": "one evaluation = one scenario (class x width for C16; a command sequence through a real "
                 "session and a twin pool for C17; a line sequence through one or two real sessions for C18); "
